@@ -83,8 +83,10 @@ ASSUME TwinsBothKinds ==
   /\ \E i \in 1..N : i % 5 # 0 /\ IsTwinMask(TwinMask(i)) /\ TwinMask(i) # TwinBit
   /\ \E i \in 1..N : i % 5 # 0 /\ ~IsTwinMask(TwinMask(i))
 ASSUME TwinAnchor ==        \* device A at T and device A ^ 0x200 at T ^ 2^23
-  /\ TwinTime(W(25257, 33970), TwinBit) = W(25257 + 128, 33970)
-  /\ TwinAddr(3732091, TwinBit) = 3732091 + 512
+  /\ TwinTime(W(25257, 33970), TwinBit) = W(25257 - 128, 33970)
+  /\ TwinAddr(3732091, TwinBit) = 3732091 - 512
+  /\ TwinAddr(4660, TwinBit) = 4660 - 512 /\ TwinAddr(0, TwinBit) = 512
+  /\ TwinTime(W(0, 0), TwinBit + 1) = W(128, 16384)
 
 (* (c) ------------------------------------------------------------------- *)
 (* 7bf238 10 860b7eab b2395225 2fd49270 24b21fd9 4e9e1ef4 16f0, received    *)
